@@ -3,7 +3,7 @@ import sys
 import typing
 from dataclasses import dataclass
 from functools import partial
-from typing import Protocol, get_args, runtime_checkable
+from typing import Protocol, get_args, get_origin, runtime_checkable
 
 from .mro import Order, TypeRelationship, subclasscheck, typeorder
 from .typemap import TypeMap
@@ -51,9 +51,7 @@ class TypeNormalizer:
         if UnionType and isinstance(t, UnionType):
             return self(t.__args__, fn)
         elif origin is type:
-            if t.__args__ == (typing.Any,):
-                return type[object]
-            return t
+            return type[_any_as_object(t.__args__[0])]
         elif origin and getattr(t, "__args__", None) is None:
             return t
         elif origin is not None:
@@ -76,6 +74,18 @@ class TypeNormalizer:
             )
         else:
             return t
+
+
+def _any_as_object(t):
+    """Replace typing.Any by object at any depth of a parametrized generic."""
+    if t is typing.Any:
+        return object
+    args = getattr(t, "__args__", None)
+    if args and isinstance(get_origin(t), type):
+        new_args = tuple(_any_as_object(arg) for arg in args)
+        if new_args != args:
+            return get_origin(t)[new_args]
+    return t
 
 
 normalize_type = TypeNormalizer()
